@@ -23,7 +23,12 @@ def constexpr_table(ctx, bdir):
         f.write('#include <stdint.h>\n#include <librfn/constexpr.h>\n'
                 'struct ce_entry { uint64_t c; int pop; int lssb; };\n'
                 'const struct ce_entry ce_table[] = {\n')
-        for c in vals:
-            f.write('{0x%xull, const_pop(0x%xull), const_lssb(0x%xull)},\n' % (c, c, c))
+        for n, c in enumerate(vals):
+            if n % 3 == 2:
+                # the constant written as an expression of low precedence (macro hygiene)
+                hi, lo = c & 0xffffffff00000000, c & 0xffffffff
+                f.write('{0x%xull, const_pop(0x%xull | 0x%xull), const_lssb(0x%xull ^ 0x%xull)},\n' % (c, hi, lo, hi, lo))
+            else:
+                f.write('{0x%xull, const_pop(0x%xull), const_lssb(0x%xull)},\n' % (c, c, c))
         f.write('};\nconst unsigned ce_table_len = sizeof(ce_table)/sizeof(ce_table[0]);\n')
     return [path]
